@@ -98,9 +98,19 @@ func TestC18(t *testing.T) {
 			sc.Steps = append(sc.Steps, Step{Op: "srcSet", I: rapid.IntRange(0, 3).Draw(rt, "slot"), J: rapid.IntRange(0, 6).Draw(rt, "val")})
 		}
 		sc.Steps = append(sc.Steps, Step{Op: "createTemplate", OT: genOTSpec(rt, cluster)})
+		if rapid.IntRange(0, 5).Draw(rt, "failfirst") == 0 {
+			// the template's first passes all fail on some API call, then it is deleted before any pass succeeded
+			for i := rapid.IntRange(1, 3).Draw(rt, "nfail"); i > 0; i-- {
+				sc.Steps = append(sc.Steps, Step{Op: "fault", I: rapid.IntRange(0, 9).Draw(rt, "ncall0"), J: rapid.SampledFrom([]int{0, 4, 5, 6, 7}).Draw(rt, "fkind0")}, Step{Op: "reconcile", Ctrl: ctrl})
+			}
+			sc.Steps = append(sc.Steps, Step{Op: "deleteTemplate"}, Step{Op: "reconcile", Ctrl: ctrl})
+		}
 		n := rapid.IntRange(3, 24).Draw(rt, "nsteps")
 		for i := 0; i < n; i++ {
-			switch k := rapid.IntRange(0, 13).Draw(rt, "kind"); {
+			switch k := rapid.IntRange(0, 14).Draw(rt, "kind"); {
+			case k == 14:
+				// an API call of the next pass fails (plain error or a status answer: 500, 429, 503, timeout)
+				sc.Steps = append(sc.Steps, Step{Op: "fault", I: rapid.IntRange(0, 9).Draw(rt, "ncall"), J: rapid.SampledFrom([]int{0, 0, 1, 4, 5, 6, 7}).Draw(rt, "fkind")}, Step{Op: "reconcile", Ctrl: ctrl})
 			case k <= 5:
 				sc.Steps = append(sc.Steps, Step{Op: "reconcile", Ctrl: ctrl})
 			case k <= 8:
